@@ -997,4 +997,31 @@ example :
       .upd "MIX" "b", .upd "STATUS" "d", .upd "STATUS" "c", .save]).1.vip
       = [("MIX", "b"), ("STATUS", "c")] := by decide
 
+/-! ### record lengths at start-up -/
+
+/-- every legal pair of record lengths (what `ConfigurePulseLengths` accepts, incl. the boundary
+`nsamp = npre + 1`) passes the start-up's defaulting unchanged -/
+theorem C16_lengths_legal_restored (npre nsamp : Int) (h : legalLengths npre nsamp = true) :
+    sanitizeLengths npre nsamp = (npre, nsamp) := by
+  simp only [legalLengths, Bool.and_eq_true, decide_eq_true_eq] at h
+  unfold sanitizeLengths
+  have h1 : ¬ npre ≤ 0 := by omega
+  simp only [h1, if_false]
+  have h2 : ¬ nsamp ≤ npre := by omega
+  simp [h2]
+
+/-- whatever was saved, the lengths used after start-up are legal, and defaulting them again changes nothing -/
+theorem C16_lengths_sanitized_legal (npre nsamp : Int) :
+    legalLengths (sanitizeLengths npre nsamp).1 (sanitizeLengths npre nsamp).2 = true := by
+  unfold sanitizeLengths legalLengths
+  simp only [Bool.and_eq_true, decide_eq_true_eq]
+  by_cases h1 : npre ≤ 0
+  · simp only [h1, if_true]
+    by_cases h2 : nsamp ≤ 400 <;> simp only [h2, if_true, if_false] <;> omega
+  · simp only [h1, if_false]
+    by_cases h2 : nsamp ≤ npre <;> simp only [h2, if_true, if_false] <;> omega
+
+example : sanitizeLengths 500 501 = (500, 501) ∧ sanitizeLengths 3 4 = (3, 4) ∧
+    sanitizeLengths 0 0 = (400, 800) ∧ sanitizeLengths 500 500 = (500, 1000) ∧ sanitizeLengths (-5) 100 = (400, 800) := by decide
+
 end DastardV.C16
